@@ -112,6 +112,14 @@ pub fn gen(rng: &mut Rng, n: usize, sink: &mut Sink) {
                 let amt = *rng.pick(&[1u128, 1, 2, 10, 100, 1000, 5_000_000]);
                 let a = vec![b"0xtxhash".to_vec(), nat(rng.below(300) as u128), receiver, tok, nat(amt)];
                 sink.exec(&format!("tx {} {} refund 0 - {}", hex::encode(&caller), hex::encode(&gs), args(&a)));
+            } else if r < 91 {
+                // the owner upgrades the contract (same code; `upgrade()` is empty): nothing may change
+                let mut a = vec![b"gas-service".to_vec(), vec![5u8, 6u8]];
+                if rng.chance(1, 6) {
+                    a.push(user(2)); // surplus argument: refused
+                }
+                sink.exec(&format!("tx {} {} upgradeContract 0 - {}", hex::encode(&owner), hex::encode(&gs), args(&a)));
+                sink.exec(&format!("query {} gas_collector -", hex::encode(&gs)));
             } else {
                 let newc = if rng.chance(1, 6) { vec![0u8; 32] } else { user(rng.below(6) as u8) };
                 let caller = if collector.iter().all(|b| *b == 0) && rng.chance(1, 2) { user(rng.below(6) as u8) } else { caller };
